@@ -120,8 +120,8 @@ Proof. exact canon_number_some_iff. Qed.
 (* ECMA-262 Number::toString step 5 in full: (n, k, s) is a representation of the double
    (k digits, s * 10^(n-k) rounds to it), k <= 17, NO representation has fewer digits
    (whatever its exponent), and among the k-digit representations s * 10^(n-k) is closest to
-   the double, an even s being chosen on a tie (the residual alternative k = 1, s = 9, s' = 1 of
-   the tie clause is the one case not excluded) *)
+   the double, an even s being chosen on a tie (a tie between 9 * 10^j and 10^(j+1) cannot
+   occur: `tie_9_10_impossible`) *)
 Open Scope Z_scope.
 Theorem C09_ecma_number_to_string : forall m e n k s,
   valid_binary 53 1024 (S754_finite false m e) = true ->
@@ -133,7 +133,7 @@ Theorem C09_ecma_number_to_string : forall m e n k s,
       Rabs (IZR s' * bpow radix10 (n' - k) - dbl_R m e))%R /\
      (Rabs (IZR s * bpow radix10 (n - k) - dbl_R m e) =
       Rabs (IZR s' * bpow radix10 (n' - k) - dbl_R m e) ->
-      (s', n') = (s, n) \/ Z.even s = true \/ (k = 1 /\ s = 9 /\ s' = 1))).
+      (s', n') = (s, n) \/ Z.even s = true)).
 Proof. exact nks_ecma. Qed.
 Close Scope Z_scope.
 
